@@ -2,10 +2,22 @@
 #include <cstdio>
 #include <cstdlib>
 
+#ifdef TEAKRA_VERIF
+// verification hook: a deliberate assertion becomes an observable outcome instead of abort()
+struct TeakraVerifAssert {
+    const char* expression;
+    const char* file;
+    int line;
+};
+[[noreturn]] inline void Assert(const char* expression, const char* file, int line) {
+    throw TeakraVerifAssert{expression, file, line};
+}
+#else
 [[noreturn]] inline void Assert(const char* expression, const char* file, int line) {
     std::fprintf(stderr, "Assertion '%s' failed, file '%s' line '%d'.", expression, file, line);
     std::abort();
 }
+#endif
 
 #define ASSERT(EXPRESSION) ((EXPRESSION) ? (void)0 : Assert(#EXPRESSION, __FILE__, __LINE__))
 #define UNREACHABLE() Assert("UNREACHABLE", __FILE__, __LINE__)
